@@ -125,14 +125,20 @@ def events(darsia, rng, stacks, degrees, quick):
         a = [rng.randint(-2, 3) for _ in uniq]
         b = [rng.randint(-3, 3) for _ in uniq]
         x = np.array([rng.randint(-4, 9) for _ in range(labels.size)], dtype=float).reshape(shape)
-        e = {"tid": f"hetlinear:{i}", "op": "hetlinear", "labels": labels.ravel().tolist(), "uniq": uniq, "a": a, "b": b, "x": ints(x), "raised": 0, "res": [], "shape": list(shape)}
+        # half-integer parameters (logged doubled, like the result) and signals of the pixel types images come in: the label-wise
+        # result is the homogeneous model's, not its truncation to the signal's integer type
+        sdt = rng.choice(["float64", "float64", "float32", "int64", "uint8"])
+        if sdt == "uint8":
+            x = np.abs(x)
+        x = x.astype(sdt)
+        e = {"tid": f"hetlinear:{i}", "op": "hetlinear", "labels": labels.ravel().tolist(), "uniq": uniq, "a": a, "b": b, "x": ints(x), "raised": 0, "res": [], "shape": list(shape), "sdtype": sdt}
         try:
-            hm = darsia.HeterogeneousLinearModel(labels.astype(np.uint8), scaling=[float(v) for v in a], offset=[float(v) for v in b])
+            hm = darsia.HeterogeneousLinearModel(labels.astype(np.uint8), scaling=[0.5 * v for v in a], offset=[0.5 * v for v in b])
             if rng.random() < 0.5:
                 par = [rng.randint(-2, 3) for _ in uniq] + [rng.randint(-3, 3) for _ in uniq]
-                hm.update_model_parameters(np.array(par, dtype=float))
+                hm.update_model_parameters(0.5 * np.array(par, dtype=float))
                 e["a"], e["b"] = par[: len(uniq)], par[len(uniq):]
-            e["res"] = ints(hm(x))
+            e["res"] = ints(2.0 * np.asarray(hm(x), dtype=float))
         except Exception as ex:  # noqa
             e["raised"] = 1
             e["error"] = repr(ex)[:160]
@@ -145,11 +151,11 @@ def events(darsia, rng, stacks, degrees, quick):
                 shp = (shape[0] * fac[0] * 2 // (fac[1] * 2) if fac[1] == 1 else max(1, shape[0] // fac[1]),
                        shape[1] * fac[0] if fac[1] == 1 else max(1, shape[1] // fac[1]))
                 lab_r = np.array([[labels[(r * shape[0]) // shp[0], (c * shape[1]) // shp[1]] for c in range(shp[1])] for r in range(shp[0])])
-                xs = np.array([rng.randint(-4, 9) for _ in range(shp[0] * shp[1])], dtype=float).reshape(shp)
+                xs = np.array([rng.randint(0, 9) for _ in range(shp[0] * shp[1])], dtype=float).reshape(shp).astype(sdt)
                 e2 = {"tid": f"hetlinear:{i}:seq{step}", "op": "hetlinear", "labels": lab_r.ravel().tolist(), "uniq": uniq, "a": e["a"], "b": e["b"], "x": ints(xs),
                       "raised": 0, "res": [], "shape": list(shp)}
                 try:
-                    e2["res"] = ints(hm(xs))
+                    e2["res"] = ints(2.0 * np.asarray(hm(xs), dtype=float))
                 except Exception as ex:  # noqa
                     e2["raised"] = 1
                     e2["error"] = repr(ex)[:160]
